@@ -10,6 +10,7 @@ import time
 from common import MachineryError, seed, scratch, run_tlc, tlc_ok, tla_set, tla_seq, NCPU, log
 from report import Report
 import dec_engine as de
+import gens
 
 
 # --------------------------------------------------------------------------
@@ -272,7 +273,7 @@ def _stress_chunk(chunk):
     return [in_child(lambda: stress(specs, 30, 6), timeout=300) for specs in chunk]
 
 
-def explore_lines(rep, specs, quick, rng, what):
+def explore_lines(rep, specs, quick, rng, what, max_single=None, n_double=None):
     """All single-preemption schedules of thread 0 (thread 1 runs completely in the gap), and the
     symmetric ones; sampled double preemptions."""
     ser = serial_results(specs)
@@ -283,11 +284,12 @@ def explore_lines(rep, specs, quick, rng, what):
     plans = []
     for a, b in ((0, 1), (1, 0)):
         pts = list(range(1, steps[a] + 1))
-        if len(pts) > (1500 if quick else 20000):
-            pts = sorted(rng.sample(pts, 1500 if quick else 20000))
+        cap = max_single or (1500 if quick else 20000)
+        if len(pts) > cap:
+            pts = sorted(rng.sample(pts, cap))
         for p in pts:
             plans.append([(a, p), (b, 10 ** 9)])
-    for _ in range(40 if quick else 600):
+    for _ in range(n_double or (40 if quick else 600)):
         p = rng.randint(1, steps[0])
         q = rng.randint(1, steps[1])
         plans.append([(0, p), (1, q), (0, 10 ** 9)])
@@ -426,6 +428,11 @@ def check_C19(tier):
     for what, specs in pairs:
         explore_lines(rep, specs, quick, rng, what)
         rep.case(what, nontrivial=True)
+    # two calls that are both close to an interpreter-wide resource limit (nesting beyond the recursion limit:
+    # alone each raises RecursionError, see known_findings.json; together they must do exactly the same)
+    deep = "".join(gens.deep_branches(1200))
+    explore_lines(rep, [["dec", deep], ["dec", deep + "[O]"]], quick, rng, "decoder || decoder (both nested 1200 deep)",
+                  max_single=(30 if quick else 300), n_double=(60 if quick else 600))
     # --- free-running stress (sampling) ---
     specs = [p[1][0] for p in pairs] + [p[1][1] for p in pairs]
     ser = {json.dumps(s): in_child(lambda s=s: call_by_spec(s)) for s in specs}
